@@ -56,6 +56,10 @@ Ltac evalT_norm :=
   repeat first [ rewrite evalT_emul | rewrite evalT_eadd | rewrite evalT_esub | rewrite evalT_ediv
                | rewrite evalT_EZ | rewrite evalT_ENum | rewrite evalT_eneg ].
 
+(* closes the arithmetic left by an induction step whatever algebraic shape the translated formula has
+   (a harmless rewrite of the source formula -- `x * 0.5` into `x / 2`, a reordering -- must not break the proof) *)
+Ltac qsolve := first [ ring | field | (field; first [assumption | discriminate | (intro; discriminate)]) ].
+
 Lemma is_int_ofn n : is_int (ofn n) = true.
 Proof. apply is_int_inject. Qed.
 Lemma to_int_ofn n : to_int (ofn n) = Z.of_nat n.
@@ -87,8 +91,8 @@ Proof.
   intro Hc. eexists. split; [reflexivity|].
   evalT_norm. rewrite Hc. clear Hc.
   induction n as [|n IH]; cbn [sumn].
-  - unfold ofn; cbn. ring.
-  - rewrite <- IH, ofn_S. ring.
+  - unfold ofn; cbn. qsolve.
+  - rewrite <- IH, ofn_S. qsolve.
 Qed.
 
 Lemma Qpower_add_nat x a b :
@@ -131,8 +135,8 @@ Proof.
   intro Hc. eexists. split; [reflexivity|].
   evalT_norm. rewrite Hc. clear Hc.
   induction n as [|n IH]; cbn [sumn].
-  - unfold ofn; cbn. ring.
-  - rewrite <- IH, ofn_S. field.
+  - unfold ofn; cbn. qsolve.
+  - rewrite <- IH, ofn_S. qsolve.
 Qed.
 
 (* ---------- geometric sequence, ratio other than 1 ---------- *)
